@@ -564,6 +564,41 @@ func run(bin, prop, tier string, seed int64, replay string, nshards int, race bo
 		}
 	}
 
+	// race detector reports (C16): the log files GORACE wrote next to the shard logs
+	if race {
+		matches, _ := filepath.Glob(filepath.Join(workDir, "shard*.log.race.*"))
+		seenRace := map[string]bool{}
+		for _, m := range matches {
+			b, err := os.ReadFile(m)
+			if err != nil || !bytes.Contains(b, []byte("DATA RACE")) {
+				continue
+			}
+			key := "race: " + raceKey(string(b))
+			if seenRace[key] {
+				continue
+			}
+			seenRace[key] = true
+			isKnown := false
+			for _, k := range known {
+				if k.Status == "known" && k.Key == key {
+					isKnown = true
+					knownLines = append(knownLines, fmt.Sprintf("KNOWN-FINDING: property=%s %s [key %s]", prop, k.What, k.Key))
+					knownStatus[k.Key] = "reported by the race detector in this run"
+				}
+			}
+			if isKnown {
+				continue
+			}
+			dst := filepath.Join(verifDir, "replays", fmt.Sprintf("%s-race-%d.txt", prop, len(seenRace)))
+			_ = os.MkdirAll(filepath.Dir(dst), 0o755)
+			if len(b) > 20000 {
+				b = b[:20000]
+			}
+			_ = os.WriteFile(dst, b, 0o644)
+			violations = append(violations, violation{Campaign: "race-detector", Key: key, Msg: "the race detector reports a data race: " + key, Replay: dst})
+		}
+	}
+
 	// merge
 	merged := shardOut{Campaigns: map[string]*campaignStats{}, Classes: map[string]int64{}, KnownHits: map[string]int64{}, KnownSamples: map[string]any{}, Excluded: map[string]int64{}}
 	hashes := map[uint64]struct{}{}
@@ -738,6 +773,40 @@ func run(bin, prop, tier string, seed int64, replay string, nshards int, race bo
 		return 2
 	}
 	return 0
+}
+
+// raceKey names a race by the innermost library frames of its two accesses.
+func raceKey(report string) string {
+	var frames []string
+	lines := strings.Split(report, "\n")
+	inBlock := false
+	for _, l := range lines {
+		t := strings.TrimSpace(l)
+		if strings.HasPrefix(t, "Write at") || strings.HasPrefix(t, "Read at") || strings.HasPrefix(t, "Previous write at") || strings.HasPrefix(t, "Previous read at") {
+			inBlock = true
+			continue
+		}
+		if inBlock && strings.Contains(t, "jsightapi") && strings.HasSuffix(t, ")") {
+			fn := t
+			if i := strings.LastIndex(fn, "("); i > 0 {
+				fn = fn[:i]
+			}
+			fn = fn[strings.LastIndex(fn, "/")+1:]
+			frames = append(frames, fn)
+			inBlock = false
+			if len(frames) == 2 {
+				break
+			}
+		}
+		if t == "" {
+			inBlock = false
+		}
+	}
+	if len(frames) == 0 {
+		return "unattributed"
+	}
+	sort.Strings(frames)
+	return strings.Join(frames, " <-> ")
 }
 
 func keys(m map[string]bool) []string {
